@@ -10,12 +10,29 @@ from .calls import CallMixin, Star
 from . import source
 
 
+class AnchorEnv(dict):
+    """environment view handed to contracts: a local the contract names but the code no longer binds is a lost anchor
+    (undecided), not a checker crash"""
+    def __missing__(s, k):
+        raise KeyError(f"contract anchor lost: the contract refers to local `{k}`, which this code does not bind here")
+
+
+def _walk_no_loops(st):
+    """walk a statement without descending into nested loops or function definitions"""
+    yield st
+    for c in ast.iter_child_nodes(st):
+        if isinstance(c, (ast.For, ast.AsyncFor, ast.While, ast.FunctionDef, ast.AsyncFunctionDef, ast.Lambda, ast.ClassDef)):
+            continue
+        yield from _walk_no_loops(c)
+
+
 class InvCtx:
     """what an invariant / clause function gets to look at"""
     def __init__(s, ex, p, H0, env0, k=None, seq=None, seqH=None, extra=None):
         s.ex, s.p, s.H0, s.env0, s.k, s.seq, s.seqH, s.extra = ex, p, H0, env0, k, seq, seqH, extra
         s.H = p.snap()
-        s.env = p.env
+        s.env = AnchorEnv(p.env)
+        s.env0 = AnchorEnv(env0) if env0 is not None else env0
 
     def v(s, name):
         return s.env[name].t
@@ -542,6 +559,49 @@ class StmtMixin(CallMixin):
         walk(body)
         return out
 
+    def names_reaching_head(s, loop):
+        """names that may be (re)bound on a path that comes back to the head of `loop`.  A name assigned only in statement
+        lists that definitely leave the loop (break / return, no `continue` inside) keeps its entry value at the head, and the
+        loop's else clause never comes back; everything else is treated conservatively."""
+        def own_continue(stmts):
+            for st in stmts:
+                for x in _walk_no_loops(st):
+                    if isinstance(x, ast.Continue):
+                        return True
+            return False
+        def exits(stmts):
+            if not stmts:
+                return False
+            last = stmts[-1]
+            if isinstance(last, (ast.Break, ast.Return)):
+                return True
+            if isinstance(last, ast.If):
+                return exits(last.body) and exits(last.orelse)
+            return False
+        def reach(stmts):
+            if exits(stmts) and not own_continue(stmts) and not any(isinstance(x, (ast.Try, ast.For, ast.While, ast.AsyncFor))
+                                                                    for st in stmts for x in ast.walk(st)):
+                return []
+            out = []
+            for st in stmts:
+                if isinstance(st, ast.If):
+                    out += s.assigned_names([ast.Expr(st.test)]) + reach(st.body) + reach(st.orelse)
+                elif isinstance(st, (ast.With, ast.AsyncWith)):
+                    out += s.assigned_names([ast.Expr(i.context_expr) for i in st.items] +
+                                            [ast.Expr(i.optional_vars) for i in st.items if i.optional_vars is not None]) + reach(st.body)
+                else:
+                    out += s.assigned_names([st])
+            return out
+        names = []
+        if isinstance(loop, (ast.For, ast.AsyncFor)):
+            names += s.assigned_names([ast.Expr(loop.target)])
+        else:
+            names += s.assigned_names([ast.Expr(loop.test)])
+        for nm in reach(loop.body):
+            if nm not in names:
+                names.append(nm)
+        return names
+
     def open_cut(s, inv, key, p, body, ctx_kwargs):
         """assert Inv on entry, havoc the loop's footprint, assume Inv.  returns (H0, env0)"""
         H0 = p.snap()
@@ -572,7 +632,9 @@ class StmtMixin(CallMixin):
                 p.h.fields[nm] = z3.Array(f"hvF_{nm}!{next(_hv)}", z3.IntSort(), Val)
             else:
                 p.havoc_field(o, nm)
-        for nm in s.assigned_names(body) + list(inv.vars):
+        loop_names = s.names_reaching_head(body[0]) if len(body) == 1 and isinstance(body[0], (ast.For, ast.AsyncFor, ast.While)) \
+            else s.assigned_names(body)
+        for nm in loop_names + [v for v in inv.vars if v not in loop_names]:
             if nm.startswith("$"):
                 continue
             ty = inv.var_types.get(nm)
@@ -634,7 +696,7 @@ class StmtMixin(CallMixin):
             def sch(pth, j, fn=fn):
                 c2 = InvCtx(s, pth, H0, env0, **ctx_kwargs)
                 c2.H = H1
-                c2.env = env1
+                c2.env = AnchorEnv(env1)
                 return fn(c2, pth, j)
             p.add_schema(tgt, sch)
         for label, fn in inv.dforalls:
@@ -642,7 +704,7 @@ class StmtMixin(CallMixin):
             def dsch(pth, kk, fn=fn):
                 c2 = InvCtx(s, pth, H0, env0, **ctx_kwargs)
                 c2.H = H1
-                c2.env = env1
+                c2.env = AnchorEnv(env1)
                 return fn(c2, pth, kk)
             p.add_dschema(tgt, dsch)
 
@@ -653,7 +715,7 @@ class StmtMixin(CallMixin):
             if bound is None:
                 raise Unsupported(f"loop {s.func_stack[-1].name}:{key} has no invariant")
             return s.unroll_while(n, p, bound, key)
-        H0, env0, frame = s.open_cut(inv, key, p, n.body + n.orelse, {})
+        H0, env0, frame = s.open_cut(inv, key, p, [n], {})
         s.assume_inv(inv, p, H0, env0, {})
         p.ghost["head:" + key] = (p.snap(), dict(p.env))
         p.frames = p.frames + [frame]
